@@ -70,7 +70,10 @@ Proof. exact group_passes_C19. Qed.
 Print Assumptions c19_model_passes_scan_checker.
 
 (* what is demanded of the implementation's journals: every Node delete names a node backed by an instance of the all-accepted
-   terminate run directly before its block (plus the calls' shape and the budget) — it follows from the parser above *)
+   terminate run directly before its block (plus the calls' shape and the budget) — it follows from the parser above — and
+   "the entire batch" is the scan's one removal request per path: the Node deletes of a scan form at most two blocks separated by
+   terminations, one of force-tainted and one of tainted nodes of the view (check_C19_requests: a request cut into pieces —
+   terminate some, delete them, terminate more — shows as a further block or as two blocks of one class) *)
 Theorem c19_deletes_after_accepted_batch : forall now gdry api g a nodes pods,
   check_C19_group_w (ctx_of now gdry api g a nodes pods) (r_calls (scan_of now gdry api g a nodes pods)) = true.
 Proof. exact group_passes_C19_w. Qed.
